@@ -22,9 +22,7 @@ min/max-occurs deviations (empty clusters, two <network>), unknown enumeration v
 
 Reference recognisers are written from xml/gama-local.xsd and doc/gama-local-input.texi, not from gama's code.
 
-Local work-around (told to the lead): the clang `fuzz` flavour of vf/runner.py lacks -fno-sanitize=pointer-overflow
-(the `san` flavour has it by design: matvec's begin()-1 idiom), so libFuzzer would stop at the first valid
-adjustment.  This module registers an in-process flavour `fuzz11` = fuzz + that flag (build dir .build/fuzz11).
+libFuzzer runs in the clang `fuzz` flavour of vf/runner.py (pointer-overflow check off, as in `san`).
 """
 import base64
 import itertools
@@ -48,12 +46,6 @@ WATCHDOG = 20.0             # s; a gama-local run takes ~30 ms
 PARSE_WATCHDOG = 10.0       # s; a parse takes ~0.1 ms
 CORPUS = os.path.join(runner.ROOT, "corpus")
 XMLNS = "http://www.gnu.org/software/gama/gama-local"
-
-if "fuzz11" not in runner.FLAVOURS:
-    _f = dict(runner.FLAVOURS["fuzz"])
-    if "pointer-overflow" not in _f["flags"]:
-        _f["flags"] = _f["flags"].replace("-fno-sanitize=object-size", "-fno-sanitize=object-size,pointer-overflow")
-    runner.FLAVOURS["fuzz11"] = _f
 
 # ------------------------------------------------------------------------------------------------------------
 # reference recognisers (same documented formats as C18; written from the XSD / manual)
@@ -2214,7 +2206,7 @@ def w8_fuzz(X, build_thread):
     env = dict(runner.SAN_ENV)
     jobs = []
     for target, kind, dic, maxlen in FUZZ:
-        exe = runner.binpath("fuzz11", target)
+        exe = runner.binpath("fuzz", target)
         seeds = os.path.join(CORPUS, target)
         nseed = len(os.listdir(seeds)) if os.path.isdir(seeds) else 0
         ck.count("w8 committed corpus files [%s]" % target, nseed)
@@ -2370,7 +2362,7 @@ def run(tier, seed):
     t0 = time.time()
     runner.build("san", targets=["parsedrv", "gama-local", "gama-g3"])
     want = lambda w: (not ONLY or w in ONLY)
-    fz = BuildThread("fuzz11", [t for t, _, _, _ in FUZZ]) if want("w8") else None
+    fz = BuildThread("fuzz", [t for t, _, _, _ in FUZZ]) if want("w8") else None
     pl = BuildThread("plain", ["parsedrv", "gama-local"]) if (tier == "thorough" and want("w9")) else None
     ck = Check("C11", tier, seed,
                "san build (gcc ASan+UBSan, alloc_dealloc_mismatch on): (1) grammar-derived valid documents; (2) all tag-event "
